@@ -158,6 +158,86 @@ def r2_length_check(ctx):
                           "the produced length (and a wrong caller number rejects a good patch)", e.loc(), sample={"entry": e.id, "reads_header_size": reads_hdr})
 
 
+DROPPERS = re.compile(r"::(filter|filter_map|retain|retain_mut|dedup\w*|truncate|drain|skip|skip_while|take|take_while|step_by|pop|remove|swap_remove|split_off|clear|extract_if)$")
+
+
+def r4_controls_not_dropped(ctx):
+    """every control entry the differ produced reaches the control block: an entry that emits no bytes still moves the old-file cursor
+    (its seek), so nothing between the producer and ControlBlock::with_entries may drop entries"""
+    rule = "C16.R4"
+    ctx.rule(rule, "the Vec<ControlEntry> handed to ControlBlock::with_entries passes no dropping adaptor / mutator (filter, retain, dedup, "
+                   "truncate, skip, take, pop, remove ...) on its way from where the entries were produced")
+    n = 0
+    for b in bodies(ctx):
+        if not re.search(r"zbsdiff/builder\.rs$", b.file or ""):
+            continue
+        for c in b.calls_matching(r"ControlBlock::with_entries$"):
+            l = op_local(c.args[0]) if c.args else None
+            if l is None:
+                continue
+            n += 1
+            ctx.saw(b)
+            ctx.call_sites += 1
+            sl = Slice(b, [l], transparent=True)
+            carriers = {x for x in sl.locals if "ControlEntry" in (b.local_ty(x) or "")}
+            drops = []
+            for x in b.calls:
+                if not (DROPPERS.search(x.name) or DROPPERS.search(x.orig_name or "")):
+                    continue
+                touches = (x.dest and x.dest[0] in carriers) or any(op_local(a) in carriers for a in x.args if op_local(a) is not None)
+                if not touches and x.args and op_local(x.args[0]) is not None:
+                    touches = bool(Slice(b, [op_local(x.args[0])], transparent=re.compile(r"\bDeref\w*>?::deref(_mut)?$")).locals & carriers)
+                if touches and (x.bb == c.bb or c.bb in b.reachable([x.bb])):
+                    drops.append(x)
+            ctx.check(not drops, rule, [b.id, "controls-unfiltered"], "control entries reach the control block unfiltered",
+                      "%s passes the control entries through %s before building the control block: an entry with no output bytes still carries a seek that moves the "
+                      "old-file cursor - dropping it shifts every later diff block, and both patchers return Ok with the right length and wrong content" %
+                      (ctx._stable(b.id), drops[0].name.split("::")[-1] if drops else ""), c.loc(), sample={"with_entries": c.loc()})
+    ctx.floor(rule, n, 2, "ControlBlock::with_entries call sites in the builders")
+
+
+def r5_cursor_agreement(ctx):
+    """the chunked builder keeps its own copy of the patcher's old-file cursor (`old_pos`): the patcher advances that cursor by the diff
+    length of an entry (and by its seek), and by nothing else. So every advance of old_pos by X is paired, on every path that reaches
+    it, with an emitted entry whose diff length is X; extra data never moves it."""
+    rule = "C16.R5"
+    ctx.rule(rule, "build_chunked_patch: each `old_pos += X` is reached only through a ControlEntry::new whose diff length derives from X")
+    bs = [b for b in bodies(ctx) if b.item == "build_chunked_patch" and not b.root]
+    if not ctx.anchor(rule, bs, "ZbsdiffBuilder::build_chunked_patch"):
+        return
+    b = bs[0]
+    ctx.saw(b)
+    op = next((i for i, d in enumerate(b.locals) if d.get("n") == "old_pos"), None)
+    if not ctx.anchor(rule, op is not None, "local `old_pos`"):
+        return
+    adds = []
+    for i, j, st in b.stmts():
+        r = st["r"]
+        if r["k"] == "Bin" and r["op"] in ("Add", "AddWithOverflow", "AddUnchecked") and any(op_local(o) == op for o in r["o"]):
+            # the sum flows back into old_pos
+            others = [o for o in r["o"] if op_local(o) != op]
+            tgt = st["p"][0]
+            back = any(s2["p"] == [op] and s2["r"]["k"] == "Use" and op_local(s2["r"]["o"][0]) == tgt for _, _, s2 in b.stmts()) or st["p"] == [op]
+            if back and others:
+                adds.append((i, others[0], st))
+    if not ctx.anchor(rule, adds, "advance of old_pos in build_chunked_patch"):
+        return
+    news = b.calls_matching(r"ControlEntry::new$")
+    for k, (bb, x, st) in enumerate(adds):
+        xl = op_local(x)
+        xs = Slice(b, [xl], transparent=None).locals if xl is not None else set()
+        paired = set()
+        for c in news:
+            l = op_local(c.args[0])
+            if l is not None and (Slice(b, [l], transparent=True).locals & xs):
+                paired.add(c.bb)
+        ok = bool(paired) and bb not in b.reachable([0], avoid=paired) and bb not in b.reachable(b.succ[bb], avoid=paired)
+        ctx.check(ok, rule, [b.id, "old-pos-advance-paired"], "old_pos advances only together with an emitted diff of the same length",
+                  "build_chunked_patch advances its old-file cursor on a path that did not emit a diff entry of that length (for example after an extra-data "
+                  "entry): the builder and the patchers now disagree about the old position, later diff blocks are computed against bytes the patcher "
+                  "will not read - Ok, right length, wrong content", "%s:%d" % (b.file, st["l"]))
+
+
 def r3_seek_not_lost(ctx):
     rule = "C16.R3"
     ctx.rule(rule, "a computed seek is emitted on every path of the iteration; patchers apply a non-zero seek on every iteration path")
@@ -232,6 +312,8 @@ def run(ctx):
     r1_relative_seek(ctx)
     r2_length_check(ctx)
     r3_seek_not_lost(ctx)
+    r4_controls_not_dropped(ctx)
+    r5_cursor_agreement(ctx)
 
 
 from .selftest import for_families as _ff  # noqa: E402
